@@ -421,7 +421,9 @@ func runC18(ctx *core.Ctx) {
 				// copy of the value (`f(FRAG f(args)`), and as an extra leading argument
 				if i := strings.Index(base, "("); i > 0 {
 					open := base[:i+1]
-					for _, v := range []string{open + f.text + " " + base, open + f.text + ") " + base, open + f.text + "," + base[i+1:], open + f.text + " " + base[i+1:], base[:len(base)-1] + " " + f.text + ")", base + " " + open + f.text + ")"} {
+					inner := base[i+1 : len(base)-1]
+					for _, v := range []string{base[:len(base)-1] + "," + f.text + ")", base[:len(base)-1] + ", " + f.text + ")", open + inner + "," + inner + "," + f.text + ")", open + "1px,1px,1px," + f.text + ")", open + "1,1,1,1," + f.text + ",1)",
+						open + f.text + " " + base, open + f.text + ") " + base, open + f.text + "," + base[i+1:], open + f.text + " " + base[i+1:], base[:len(base)-1] + " " + f.text + ")", base + " " + open + f.text + ")"} {
 						if call(v) {
 							report(base, v, f, "function-sandwich")
 						}
